@@ -152,20 +152,21 @@ structure RInv (base : Store) (q : Nat) (d : Bool) (p : PS) : Prop where
   seq : p.s.seq = base.seq
   txseq : p.tx.seq = q
   txdry : p.tx.dry = d
+  env : p.s.envs = base.envs ∧ p.s.envVersion = base.envVersion
   next : ∀ k, base.next k ≤ p.s.next k
 
 theorem RInv.of_step {base : Store} {q : Nat} {d : Bool} {s : Store} {tx : Tx} {e : Option Err} {p : PS}
     (h0 : RInv base q d { s := s, tx := tx, err := e }) (hp : Step s tx p) : RInv base q d p := by
   have h : WF s ∧ (∀ i, s.elems i = if i ∈ tx.shells then some (shellElem q) else base.elems i) ∧
       (∀ i ∈ tx.shells, base.elems i = none) ∧ s.journal = base.journal ∧ s.vlog = base.vlog ∧ s.seq = base.seq ∧
-      tx.seq = q ∧ (∀ k, base.next k ≤ s.next k) ∧ tx.dry = d :=
-    ⟨h0.wf, h0.raw, h0.fresh, h0.journal, h0.vlog, h0.seq, h0.txseq, h0.next, h0.txdry⟩
-  obtain ⟨hwf, hraw, hfresh, hj, hv, hsq, hq, hnext, hd⟩ := h
+      tx.seq = q ∧ (∀ k, base.next k ≤ s.next k) ∧ tx.dry = d ∧ (s.envs = base.envs ∧ s.envVersion = base.envVersion) :=
+    ⟨h0.wf, h0.raw, h0.fresh, h0.journal, h0.vlog, h0.seq, h0.txseq, h0.next, h0.txdry, h0.env⟩
+  obtain ⟨hwf, hraw, hfresh, hj, hv, hsq, hq, hnext, hd, henv⟩ := h
   cases hp with
   | same hs ht =>
       exact { wf := hs ▸ hwf, raw := by rw [hs, ht.1]; exact hraw, fresh := by rw [ht.1]; exact hfresh,
               journal := hs ▸ hj, vlog := hs ▸ hv, seq := hs ▸ hsq,
-              txseq := ht.2.1.trans hq, txdry := ht.2.2.trans hd, next := hs ▸ hnext }
+              txseq := ht.2.1.trans hq, txdry := ht.2.2.trans hd, next := hs ▸ hnext, env := hs ▸ henv }
   | mint k hs hsh hseq hdry =>
       have hfree : s.elems ⟨k, s.next k⟩ = none := hwf ⟨k, s.next k⟩ (Nat.le_refl _)
       have hnot : (⟨k, s.next k⟩ : Id) ∉ tx.shells := by
@@ -177,7 +178,7 @@ theorem RInv.of_step {base : Store} {q : Nat} {d : Bool} {s : Store} {tx : Tx} {
         have := hraw ⟨k, s.next k⟩
         simp only [hnot, if_false] at this
         rw [← this]; exact hfree
-      refine { wf := ?_, raw := ?_, fresh := ?_, journal := ?_, vlog := ?_, seq := ?_, txseq := hseq.trans hq, txdry := hdry.trans hd, next := ?_ }
+      refine { wf := ?_, raw := ?_, fresh := ?_, journal := ?_, vlog := ?_, seq := ?_, txseq := hseq.trans hq, txdry := hdry.trans hd, next := ?_, env := (by rw [hs]; exact henv) }
       · rw [hs]; intro i hi
         simp only [mintShell, setElem, bump] at hi ⊢
         split
@@ -315,7 +316,7 @@ theorem RInv.plan {base : Store} {q : Nat} {d : Bool} (cs : List Clause) {p : PS
 theorem RInv.begin {s : Store} (hwf : WF s) (dry : Bool) :
     RInv { s with seq := s.seq + 1 } (s.seq + 1) dry (begin s dry) :=
   { wf := hwf, raw := by intro i; simp [Tx.begin, PS.ok], fresh := by intro i hi; simp [Tx.begin, PS.ok] at hi,
-    journal := rfl, vlog := rfl, seq := rfl, txseq := rfl, txdry := rfl, next := fun _ => Nat.le_refl _ }
+    journal := rfl, vlog := rfl, seq := rfl, txseq := rfl, txdry := rfl, env := ⟨rfl, rfl⟩, next := fun _ => Nat.le_refl _ }
 
 /-! ## Discarding shells -/
 
